@@ -181,6 +181,8 @@ class C04(Prop):
             if kind == "str" and sk in ("none", "json") and encoding == "ascii":
                 v0 = val
                 val = lambda v0=v0: "".join(c for c in v0() if ord(c) < 128)  # noqa: E731
+            if rng.random() < 0.2:
+                steps.append(self.other_traffic(rng, stack, prefix, unicode_ok, seen))
             how = rng.choice(["set", "set", "add", "replace", "cas", "set_many", "setitem"])
             v = val()
             nrk = {"noreply": rng.choice([True, False])} if rng.random() < 0.6 else {}
@@ -254,6 +256,25 @@ class C04(Prop):
                         out.append(v)
                     return out
         return [base]
+
+    def other_traffic(self, rng, stack, prefix, unicode_ok, seen):
+        """A call on keys that hold nothing, with its replies awaited: leaves the stored items alone, but shares
+        the connection with the stores and fetches around it."""
+        absent = []
+        for _ in range(rng.randint(1, 3)):
+            ak = legal_key(rng, len(prefix), unicode_ok)
+            if wire_key(ak, prefix, unicode_ok) not in seen:
+                absent.append(ak)
+        if not absent:
+            return {"t": "advance", "dt": 0}
+        m = rng.choice(["delete_many", "delete_many", "delete", "touch", "incr", "get_many"])
+        if m == "delete_many":
+            return {"t": "call", "m": m, "a": [E(absent)], "k": {"noreply": False}}
+        if m == "get_many":
+            return {"t": "call", "m": m, "a": [E(absent)], "k": {}, "coll": "list", "keys": [E(x) for x in absent]}
+        if m == "incr":
+            return {"t": "call", "m": m, "a": [E(absent[0]), 1], "k": {}}
+        return {"t": "call", "m": m, "a": [E(absent[0])], "k": {"noreply": False}}
 
     # ---- independent expectations
     def expected_fetch(self, cfg, v, kind):
